@@ -118,6 +118,11 @@ def suite_mixed(rng, tier, flavour):          # C12: one directory handed betwee
     for p in gen.damage_programs(rng, "astd", 2 if tier == "quick" else 30, exhaustive_cuts=False):
         yield (gen.mix_flavours(rng, p), ["sync", "astd", "tok"], {})
 
+def suite_cancel(rng, tier, flavour):         # C03 / C20: cancelled async writes
+    # one blocking thread: the harness can then wait for the abandoned task (FIFO queue) before the next call
+    for p in gen.abandon_programs(rng, flavour, 150 if tier == "quick" else 1500):
+        yield (p, [flavour], {"env": {"CCH_SINGLE": "1"}})
+
 def suite_link(rng, tier, flavour):           # C19 (harness built with the link_to feature)
     for p in gen.link_programs(rng, flavour, 120 if tier == "quick" else 1200):
         yield (p, [flavour], {"link_to": True})
@@ -133,19 +138,19 @@ REGISTRY = {
             "rule": "forced schedules on the real binaries (two processes, one directory): operation A is parked by strace (delay on entry) before its i-th system call that names a cache path — every such call in the thorough tier, a spread of them in the quick tier — while operation B runs to completion in a second process, then A resumes; pairs drawn from {write (same key / other key, same or other content), write_hash, read, read_hash, metadata, remove, remove_hash, exists, list} on cold and warm caches; both results and the final tree (timestamps masked) must equal those of A;B or of B;A run serially on the same binaries."},
     "C19": {"flavours": Q3, "suites": [("link", suite_link)], "link_to": True,
             "rule": "targets of 0 / 1 / small / > 16 KiB and > 32 KiB bytes in the caller's directory; link_to / link_to_hash and linkers opened with options (declared size equal / wrong, integrity correct / wrong / other algorithm, algorithm, time, metadata) or plain, absolute and relative target paths, 0..3 partial reads (0, 1, 8, 100, 16384, 40000 byte buffers) before commit or drop, addresses that already exist as regular content; read / metadata / read_hash / exists / copy / list afterwards; whole tree compared (symlink, not a copy; target untouched); then targets are modified / grown / emptied / removed and everything is read again (errors, never other bytes); three flavours built with the link_to feature."},
-    "C03": {"flavours": Q3, "suites": [], "step_suites": [("kill", step_c03), ("kill_renames_fail", steps.suite_kill_under_fault)],
-            "rule": "strace kill sweep: for every write variant (one-shot keyed / by address, streamed with declared size (mapped) and plain, more data than declared, overwrite, address already present, tombstone; thorough: sizes 1 MiB-1/0/+1) the process is SIGKILLed on entry to every mutating system call of every operation, and every data write into the cache is additionally torn at every byte length; on each surviving directory: every regular file under content-v2 hashes (hashlib/libxxhash) to its path, and the normalised tree is one of the model's crash states (Crash.v) for that operation."},
+    "C03": {"flavours": Q3, "suites": [("cancel", suite_cancel)], "step_suites": [("kill", step_c03), ("kill_renames_fail", steps.suite_kill_under_fault)],
+            "rule": "strace kill sweep: for every write variant (one-shot keyed / by address, streamed with declared size (mapped) and plain, more data than declared, fewer bytes than declared (trimmed temp file; rejected commit), overwrite, address already present, tombstone; thorough: sizes 1 MiB-1/0/+1) the process is SIGKILLed on entry to every mutating system call of every operation, and every data write into the cache is additionally torn at every byte length; on each surviving directory: every regular file under content-v2 hashes (hashlib/libxxhash) to its path, and the normalised tree is one of the model's crash states (Crash.v) for that operation; plus a differential suite of cancelled async writes (a write started, polled once and dropped, then further writes of shorter / equal / longer chunks, commit; Sess.v OAbandon): results, the final tree and the content oracle."},
     "C04": {"flavours": Q3, "suites": [], "step_suites": [("kill", step_c04)],
-            "rule": "strace kill sweep over keyed writes, overwrites (multi-byte UTF-8 metadata) and tombstone removals: SIGKILL on entry to every mutating system call, the index append torn at EVERY byte length; on each surviving directory a fresh process looks the key up (previous or new entry, never a mixture; new entry => its data reads back), every other key unchanged, then writes the key again and reads it back; the tree is one of the model's crash states."},
+            "rule": "strace kill sweep over keyed writes, overwrites (multi-byte UTF-8 metadata; after a long history: bucket > 64 KiB), rejected commits and tombstone removals: SIGKILL on entry to every mutating system call, the index append torn at EVERY byte length; on each surviving directory a fresh process looks the key up (previous or new entry, never a mixture; new entry => its data reads back), every other key unchanged, then writes the key again and reads it back; the tree is one of the model's crash states."},
     "C13": {"flavours": Q3, "suites": [], "step_suites": [("fault", steps.suite_fault), ("retry", steps.suite_fault_retry)],
-            "rule": "strace fault sweep: every system call (open/read/write/mkdir/rename/unlink/link/stat/getdents/...) that names a path inside the cache during write, write_hash, streamed open/chunk/commit, read, read_hash, metadata, copy, remove, remove_hash, list is made to fail once with EIO / ENOSPC (thorough: + EACCES, EMFILE); the call must answer an error or a truthful success (written data reads back, reads return the stored bytes, metadata/list do not silently lose entries), never panic/hang/die; afterwards content files hash to their paths, unnamed entries are unchanged, no temp file of a failed call remains; and the same call issued again without the fault succeeds."},
+            "rule": "strace fault sweep: every system call (open/read/write/mkdir/rename/unlink/link/stat/getdents/...) that names a path inside the cache during write, write_hash, streamed open/chunk/commit, read, read_hash, metadata, copy, remove, remove_hash, list is made to fail once with EIO / ENOSPC (thorough: + EACCES, EMFILE); the call must answer an error or a truthful success (written data reads back, reads return the stored bytes, metadata/list do not silently lose entries), never panic/hang/die; afterwards content files hash to their paths, unnamed entries are unchanged (a temp file left by a failed call is counted, not alarmed on: the property names the content and index areas only); and the same call issued again without the fault succeeds."},
     "C15": {"flavours": Q3, "suites": [], "step_suites": [("confine", steps.suite_confine)],
             "rule": "strace path audit: for hostile / confusable / random Unicode keys a 25-call program covering every kind of operation is traced; every mutating system call must name paths inside the cache root (extractions: or their destination), read-only calls must issue no mutating system call, path components under the cache are never empty, '.', '..' or contain NUL, components under index-v5 are hex, content files are never opened for writing in place, the working directory is untouched."},
     "C11": {"flavours": Q3, "suites": [("meta", suite_meta), ("commit", suite_commit)],
             "rule": "several writes to one key with fields (data, time incl. 2^128-1, JSON metadata trees, raw bytes, declared size, single/multi-hash integrity) drawn from small pools so that successive records differ in one field or repeat earlier values, via streamed writers and index::insert, read back by metadata/find/list after each; bucket bytes compared byte for byte (explicit times); default time checked against the call's wall-clock window."},
     "C17": {"flavours": Q3, "suites": [("refwrites", suite_refwrites), ("meta", suite_meta), ("hist", suite_hist)],
             "rule": "both directions: buckets written by the python reference writer in several valid JSON spellings (spaces, \\uXXXX escapes, shuffled / extra / omitted optional fields) read by the library; library-written caches read by the naive reference reader (refcheck after every index write); bucket bytes and paths compared with the model byte for byte."},
-    "C20": {"flavours": Q3, "suites": [("crafted", suite_crafted), ("all", suite_all), ("abandon", suite_abandon), ("damage", suite_damage)], "no_panic": True,
+    "C20": {"flavours": Q3, "suites": [("crafted", suite_crafted), ("all", suite_all), ("abandon", suite_abandon), ("damage", suite_damage), ("cancel", suite_cancel)], "no_panic": True,
             "rule": "crafted checksum-valid records (odd integrity strings, non-object JSON, missing fields, 200-deep nesting), directories and dangling symlinks at bucket and content paths, declared-size chunkings, buckets with records cut at every byte length / garbage / invalid UTF-8 lines, plus the general and abandonment programs; every call under catch_unwind and a watchdog: any panic or hang of the implementation is a violation whatever the model says."},
     "C02": {"flavours": Q3, "suites": [("roundtrip", suite_roundtrip), ("roundtrip_ok", suite_roundtrip_ok)],
             "rule": "random programs of writes through every entry point (one-shot, streamed with random chunkings incl. empty/single-byte/decreasing, keyed and by address, with/without declared size, five algorithms, small/hostile keys, sizes 0..16 KiB+1 and occasionally 1 MiB-1/0/+1 and 3 MiB) each followed by reads by key, by address, streamed reads and metadata."},
@@ -155,8 +160,8 @@ REGISTRY = {
             "rule": "histories mixing writes with remove, remove_hash, remove_fully, clear over small and hostile keys (keys sharing content included), lookups of every known key/address and the listing afterwards."},
     "C14": {"flavours": Q3, "suites": [("abandon", suite_abandon)],
             "rule": "writers dropped after creation / after some chunks / after a rejected commit, or left open, interleaved with successful operations; lookups, listing, and the final tree (including tmp/) compared."},
-    "C16": {"flavours": Q3, "suites": [("dedup", suite_dedup)],
-            "rule": "programs re-writing equal data under the same and different keys through different entry points, flavours and all five algorithms; returned addresses (hashlib/libxxhash), lookups and the final tree (one file per address) compared."},
+    "C16": {"flavours": Q3, "suites": [("dedup", suite_dedup)], "step_suites": [("rewrite_kill", steps.suite_rewrite_kill)],
+            "rule": "programs re-writing equal data under the same and different keys through different entry points, flavours and all five algorithms; returned addresses (hashlib/libxxhash), lookups and the final tree (one file per address) compared; plus a strace kill sweep over re-writes of stored bytes (one-shot same / other key, by address, streamed with and without declared size): at every kill point the stored copy is present, byte-identical, and its key still reads it."},
     "C01": {"flavours": Q3, "suites": [("damage_content", suite_damage_content)],
             "rule": "programs that store data then damage content files (bit flip, truncation, extension, emptying, bytes of another entry, deletion, symlink substitution) and retrieve through every checked entry point (read, read_hash, streamed reader + check, copy/hard_link/reflink)."},
     "C18": {"flavours": Q3, "suites": [("extract", suite_extract), ("damage_content", suite_damage_content)],
